@@ -2,6 +2,7 @@ package props
 
 import (
 	"fmt"
+	"math"
 
 	"gopkg.in/typ.v4/slices"
 	"verifharness/internal/core"
@@ -262,6 +263,34 @@ func fillRepeat(c *core.Ctx, ln int) bool {
 	for i, v := range rp {
 		if v != "x" {
 			c.Violate("Repeat:element", fmt.Sprintf("Repeat(x,%d) element %d = %q", ln, i, v), nil)
+			return false
+		}
+	}
+	// element types and values where "is it the zero value?" shortcuts go wrong
+	if ln <= 40 {
+		nz := slices.Repeat(math.Copysign(0, -1), ln)
+		for i, v := range nz {
+			if !math.Signbit(v) {
+				c.Violate("Repeat:negative-zero", fmt.Sprintf("Repeat(-0.0,%d) element %d is +0.0", ln, i), nil)
+				return false
+			}
+		}
+		tmpl := []int{7}
+		var rs [][]int
+		if p, pv := core.Catch(func() { rs = slices.Repeat(tmpl, ln) }); p {
+			c.Violate("Repeat:uncomparable-element-type", fmt.Sprintf("Repeat of a slice-typed value panicked: %v", pv), nil)
+			return false
+		}
+		for i := range rs {
+			if len(rs[i]) != 1 || &rs[i][0] != &tmpl[0] {
+				c.Violate("Repeat:element", fmt.Sprintf("Repeat of a slice-typed value: element %d is not the value", i), nil)
+				return false
+			}
+		}
+		var nilfn func()
+		var fs []func()
+		if p, pv := core.Catch(func() { fs = slices.Repeat(nilfn, ln); slices.Fill(fs, nilfn) }); p || len(fs) != ln {
+			c.Violate("Repeat:uncomparable-element-type", fmt.Sprintf("Repeat/Fill of a func-typed value panicked or has the wrong length: %v", pv), nil)
 			return false
 		}
 	}
